@@ -12,6 +12,7 @@ removed) and handed to Coq together with the program.  Inside Coq the file is pa
 checked for well-formedness against Base/Hex.v and the debug VTK against the model.
 Direct oracle: an independent Python reader of the file related to the user's declarations.
 """
+import hashlib
 import json
 import os
 import re
@@ -544,6 +545,13 @@ def op_attribute_calls(op):
     return calls, sorted(labels)
 
 
+def life_of(prog):
+    """what the mesh object went through before the observed write: 0 nothing, 1 written and back-ported, 2 assembled and
+    cleared (chosen by the program itself, so that replays agree)"""
+    h = int(hashlib.sha1(json.dumps(prog, sort_keys=True, default=str).encode()).hexdigest()[:6], 16) % 6
+    return h if h < 3 else 0
+
+
 def run_program(prog, work):
     """-> observation dict (JSON-serialisable) ; raises Discard for programs whose gradings do not resolve"""
     cb = _cb()
@@ -608,6 +616,14 @@ def run_program(prog, work):
                 mesh.assemble()
                 for (n, k, st) in prog["modify_post"]:
                     mesh.modify_patch(n, k, None if st is None else list(st))
+            if life_of(prog) == 1:
+                # the mesh has already been written once and back-ported (cleared and re-assembled from the same
+                # operations) before the file that is compared is written: same model, same file
+                mesh.write(path, None)
+                mesh.backport()
+            elif life_of(prog) == 2 and not prog["modify_post"]:
+                mesh.assemble()
+                mesh.clear()
             mesh.write(path, vpath if prog["debug"] else None)
         except (ex.UndefinedGradingsError, ex.InconsistentGradingsError) as e:
             raise Discard(type(e).__name__)
